@@ -49,4 +49,15 @@ Send(glen, after, asc, code, flag, ndata, lenA, lenB) ==
   /\ lenA = Pad(la) /\ lenB = Pad(lb)               \* the fields on the wire are the current ones
   /\ out' = [sent |-> TRUE, flag |-> flag, ndata |-> ndata]
   /\ UNCHANGED <<cls, la, lb, ds>>
+
+(* A transmission whose bytes are produced LATER than the send() call (the provider thread encodes lazily) or while     *)
+(* other threads are sending: which state of the object it shows is not fixed, but what goes out must still be ONE      *)
+(* well-formed command group, consistent with the data fragments that follow it.                                        *)
+LSend(glen, after, asc, code, flag, ndata) ==
+  /\ glen = after
+  /\ asc
+  /\ code = Code[cls]
+  /\ (flag = NoDataSet) <=> (ndata = 0)
+  /\ out' = [sent |-> TRUE, flag |-> flag, ndata |-> ndata]
+  /\ UNCHANGED <<cls, la, lb, ds>>
 =============================================================================
